@@ -4,7 +4,7 @@ from pathlib import Path
 import histgen
 import vlib
 from vlib import Check
-from checks.exporter_common import run_histories, rng_for, exporter_models, generated_histories
+from checks.exporter_common import run_many_blocks, run_histories, rng_for, exporter_models, generated_histories
 
 
 def run(tier):
@@ -40,7 +40,8 @@ def run(tier):
     hs += [histgen.add_external_block_ops(rng, histgen.gen_history(rng, nops=30, comp="none", sizes=[1, 2, 3], rot=False), p=0.5)
            for _ in range(n // 3)]
     m2 = run_histories(chk, hs, {"C12"}, label="c12r", sample=False)
-    chk.distinct = m1["execs"] + m2["execs"]
+    m3 = run_many_blocks(chk, {"C12"}, ns=(65536, 65537))
+    chk.distinct = m1["execs"] + m2["execs"] + m3["execs"]
     return chk.finish()
 
 
